@@ -40,7 +40,7 @@ def run(tier, seed):
     ck.proof = lib.proof_step('props/C04.v', matchcheck.MATCH_CONE + ['MemoFacts.v', 'HistFacts.v'])
     ck.broken += ck.proof['broken']
     if not ck.proof['driver_ok']:
-        return ck.finish(rule='driver unavailable')
+        ck.notes['driver'] = 'unavailable: model-side runs skipped, searching with the implementation-side oracles only'
     import soupsieve as sv
     n = 100 if tier == 'quick' else 2500
     custom = {':--cust': 'p, div > span'}
@@ -67,7 +67,7 @@ def run(tier, seed):
                     s = rnd.choice({'forms': [':indeterminate', ':default', 'input:indeterminate, :default',
                                               ':is(:default, :indeterminate)', ':not(:indeterminate)'],
                                     'radios': [':indeterminate', 'input:indeterminate', ':not(:indeterminate)', ':is(:indeterminate, p)'],
-                                    'langdir': [':lang("")', ':lang(en)', ':not(:lang(de))', ':lang("*")', ':lang(fr), :lang(es)',
+                                    'langdir': [':lang("")', ':lang(en)', ':not(:lang(de))', ':lang("*")', ':lang("*")', 'p:lang("*")', ':lang(fr), :lang(es)',
                                                 ':lang(fr)', ':lang("en-*")']}.get(profile, [':lang("")', ':default', ':indeterminate']))
                 if it % 4 == 1 and profile == 'ns':
                     from props.C11 import HTML_ONLY
